@@ -1,7 +1,7 @@
 (* Lemmas about Model/Wrappers.v: nested induction over wrapper trees, extensionality of the
    result monad, the binding facts of each core.py signature, the composition theorem. *)
 From Coq Require Import ZArith List Bool Lia.
-From VL Require Import Model.Wrappers.
+From VL Require Import Model.Wrappers Proofs.WrapParts_proofs.
 Import ListNotations.
 Open Scope Z_scope.
 
@@ -85,24 +85,52 @@ Proof.
   rewrite H. apply IH. exact H.
 Qed.
 
-Lemma break_ties_ext : forall f g votes main,
-  (forall sub n, f sub n = g sub n) -> break_ties f votes main = break_ties g votes main.
+Lemma break_ties_g_ext : forall s1 s2 f g votes main,
+  (forall v x, s1 v x = s2 v x) -> (forall sub n, f sub n = g sub n) ->
+  break_ties_g s1 f votes main = break_ties_g s2 g votes main.
 Proof.
-  intros f g votes main H. unfold break_ties.
+  intros s1 s2 f g votes main Hs H. unfold break_ties_g.
   destruct main as [| | |l|d|]; try reflexivity.
   - destruct (existsb _ l); [|reflexivity].
     apply rbind_ext. intro ties. f_equal. apply fold_left_ext. intros a b.
-    apply rbind_ext. intro cur. apply rbind_ext. intro sub. rewrite H. reflexivity.
+    apply rbind_ext. intro cur. rewrite Hs. apply rbind_ext. intro sub. rewrite H. reflexivity.
   - destruct (existsb _ d); [|reflexivity].
     apply rbind_ext. intro ties. f_equal. apply fold_left_ext. intros a b.
-    apply rbind_ext. intro cur. apply rbind_ext. intro sub. rewrite H. reflexivity.
+    apply rbind_ext. intro cur. rewrite Hs. apply rbind_ext. intro sub. rewrite H. reflexivity.
+Qed.
+
+Lemma break_ties_ext : forall f g votes main,
+  (forall sub n, f sub n = g sub n) -> break_ties f votes main = break_ties g votes main.
+Proof. intros f g votes main H. unfold break_ties. apply break_ties_g_ext; [reflexivity|exact H]. Qed.
+
+(* ------------------------------------------------------------------ the declarative parts of the spec side = the code-shaped parts *)
+Lemma break_ties_s : forall f g votes main,
+  (forall sub n, f sub n = g sub n) -> break_ties f votes main = break_ties_g subset_s g votes main.
+Proof.
+  intros f g votes main H. unfold break_ties. apply break_ties_g_ext; [|exact H].
+  intros v x. symmetry. apply subset_s_eq.
+Qed.
+
+Lemma sum_party_s : forall d v, sum_party_g totals_s d v = sum_party d v.
+Proof.
+  unfold sum_party. induction d as [|d IH]; intro v; cbn [sum_party_g]; [reflexivity|].
+  apply rbind_ext. intro dd.
+  rewrite (map_res_ext _ (fun kv => sum_party_g vote_totals d (snd kv) >>= fun x => Ok (fst kv, x)))
+    by (intro kv; rewrite IH; reflexivity).
+  apply rbind_ext. intro dd'. apply totals_s_eq.
+Qed.
+
+Lemma party_votes_s : forall d p, party_votes_g subset_s d p = party_votes d p.
+Proof.
+  intros d p. unfold party_votes, party_votes_g. f_equal. apply map_res_ext. intro kv.
+  rewrite subset_s_eq. reflexivity.
 Qed.
 
 (* ------------------------------------------------------------------ Conditioned: restriction at depth *)
 Lemma elim_party_map_depth : forall d v ne,
-  elim_party d v ne = map_depth d (fun x => subset_votes x ne) v.
+  elim_party d v ne = map_depth d (fun x => subset_s x ne) v.
 Proof.
-  induction d as [|d IH]; intros v ne; simpl; [reflexivity|].
+  induction d as [|d IH]; intros v ne; simpl; [symmetry; apply subset_s_eq|].
   apply rbind_ext. intro dd. f_equal. apply map_res_ext. intro kv. rewrite IH. reflexivity.
 Qed.
 
@@ -386,7 +414,7 @@ Section Compose.
   Proof.
     intros m b IHm IHb Hb Hany st sa votes Hf Hsf. cbn [run_impl run_spec].
     rewrite (IHm st sa votes Hf Hsf). apply rbind_ext. intro main.
-    apply break_ties_ext. intros sub n. apply agree_n; auto.
+    apply break_ties_s. intros sub n. apply agree_n; auto.
   Qed.
 
   Lemma case_multi : forall rs d, Forall (fun s => agree s /\ takes_spm s = true) rs -> agree (Multi rs d).
@@ -428,6 +456,7 @@ Section Compose.
     intros el e d IHel IHe H1 H2 H3 Hel st [s p m pl lv cl] votes Hf Hsf.
     apply fits_split in Hf. cbn [takes kw_eqb orb] in Hf. destruct Hf as [_ [_ [Hm [Hpl [Hlv Hcl]]]]].
     cbn [run_impl run_spec]. rewrite bind_style_cond, accept_cond. cbn [rbind]. kw_simpl'.
+    rewrite !sum_party_s.
     apply rbind_ext; intro sv. apply rbind_ext; intro sp.
     rewrite H1, H2, H3.
     first_part ltac:(destruct (takes el KPrev) eqn:Hp;
@@ -448,7 +477,7 @@ Section Compose.
   Ltac party_loop Hip :=
     apply rbind_ext; intro ores; apply rbind_ext; intro dvs; f_equal;
     apply fold_left_ext; intros acc ps;
-    apply rbind_ext; intro results; apply rbind_ext; intro pv;
+    apply rbind_ext; intro results; rewrite party_votes_s; apply rbind_ext; intro pv;
     f_equal; f_equal; rewrite Hip;
     match goal with |- context [takes ?e KPrev] => destruct (takes e KPrev) eqn:Hp end;
     [ apply rbind_ext; intro pp; apply rbind_ext; intro pm; apply agree_npm; auto
@@ -462,7 +491,7 @@ Section Compose.
     intros ov al IHo IHa Hs Hpm Hip Hanyo Hany st [s p m pl lv cl] votes Hf Hsf.
     cbn [run_impl run_spec]. rewrite bind_style_constit, accept_constit.
     destruct pl, lv, cl; try reflexivity. cbn [rbind]. kw_simpl'.
-    apply rbind_ext; intro ovotes. unfold given.
+    rewrite totals_s_eq. apply rbind_ext; intro ovotes. unfold given.
     unfold seat_fits, seat_of in Hsf; cbn [seat_ok k_seats] in Hsf.
     change (match s with Some v => v | None => VNone end) with (odef s VNone) in Hsf.
     destruct (is_none (odef s VNone)) eqn:Hn; cbn [orb] in Hsf; kw_simpl';
@@ -478,7 +507,7 @@ Section Compose.
     intros ov IHo Hs Hpm Hip Hany st [s p m pl lv cl] votes Hf _.
     cbn [run_impl run_spec]. rewrite bind_style_constit, accept_constit.
     destruct pl, lv, cl; try reflexivity. cbn [rbind]. kw_simpl'.
-    apply rbind_ext; intro ovotes. unfold given.
+    rewrite totals_s_eq. apply rbind_ext; intro ovotes. unfold given.
     destruct (is_none (odef s VNone)) eqn:Hn; kw_simpl';
       [rewrite (agree_0 ov ovotes IHo (Hany VNone)) | rewrite (agree_n ov ovotes (odef s VNone) IHo Hs (Hany _))]; kw_simpl';
       party_loop Hip.
